@@ -24,7 +24,7 @@ def run(ctx):
     crates, info = facts.load("tools")
     ctx.configs["tools"] = info
     ctx.cfg = "tools"
-    progs = {n: Program(c) for n, c in crates.items()}
+    progs = {n: load_program("tools", n)[0] for n in crates}      # with helper inlining / combinator expansion
     tool_rules.check_crc(ctx, progs["e57_check_crc"], "R1")
     tool_rules.extract_xml(ctx, progs["e57_extract_xml"], "R2")
     tool_rules.from_xyz(ctx, progs["e57_from_xyz"], "R3")
